@@ -7,7 +7,7 @@
    and initialize_backend (C17_initialize_...) are about Model/BackendDispatch.v, the layer on top of that machine:
    what a dispatched name is bound to on each route and on which object a call through it runs. *)
 From Coq Require Import List Arith Bool.
-From TLV Require Import Model.Backend Model.BackendDispatch Proofs.BackendProofs Proofs.BackendNI Proofs.BackendTwo Proofs.BackendMicro Proofs.BackendNorm Proofs.BackendDispatch.
+From TLV Require Import Model.Backend Model.BackendDispatch Model.BackendAbort Proofs.BackendProofs Proofs.BackendNI Proofs.BackendTwo Proofs.BackendMicro Proofs.BackendNorm Proofs.BackendDispatch Proofs.BackendAbort.
 Import ListNotations.
 
 (* P1 view: after any history a thread's backend is its own most recent effective selection
@@ -809,3 +809,167 @@ Example C17_closure_metadata_nonvacuous :
   = [WNone; WSelObs ODone; WRan (Obj 0); WRan (Named 0); WRan (Named 0); WNone; WRan (Obj 0); WRan (Named 0); WRan (Named 0);
      WRan (Named 0)].
 Proof. vm_compute. reflexivity. Qed.
+
+(* P8 reduction for ANY programs (not only the model's `compile`): every schedule of micro-steps of programs that pass the
+   boolean side condition prog_ok (every act touching the shared default is an effect point, at least one effect point)
+   run to quiescence ends in the state of the SEQUENTIAL execution of the emitted blocks.  Corr/C17.v evaluates prog_ok
+   on the eight programs the harness regenerates from the CURRENT source of set_backend / backend_context /
+   current_backend (ast) on every run: the reduction applies to the regenerated programs, not to a reading frozen in
+   the model (a source shape the translator does not know is a broken tie). *)
+Theorem C17_micro_atomic_generic : forall (c : cfg) (b0 : bst) (s : list ev),
+  forallb ev_ok s = true ->
+  (forall t, m_pend (fst (mrun c (mquiet b0) s)) t = []) ->
+  b_shared (m_b (fst (mrun c (mquiet b0) s))) = b_shared (bblocks c b0 (snd (mrun c (mquiet b0) s))) /\
+  forall t, b_priv (m_b (fst (mrun c (mquiet b0) s))) t = b_priv (bblocks c b0 (snd (mrun c (mquiet b0) s))) t.
+Proof. exact micro_atomic_generic. Qed.
+Print Assumptions C17_micro_atomic_generic.
+
+Example C17_micro_atomic_generic_nonvacuous :
+  forallb ev_ok sched_gen = true /\
+  (forall t, m_pend (fst (mrun cfg0 (mquiet b00) sched_gen)) t = []) /\
+  snd (mrun cfg0 (mquiet b00) sched_gen)
+  = [(1, [ATls (Const (Obj 3)); ADname (Const (Obj 3)); AShared (Const (Obj 3)); AEmit ODone]);
+     (2, [ATls (Const (Obj 4)); ADname (Const (Obj 4)); AShared (Const (Obj 4)); AEmit ODone])] /\
+  b_shared (m_b (fst (mrun cfg0 (mquiet b00) sched_gen))) = Obj 4.
+Proof. exact micro_atomic_generic_nonvacuous. Qed.
+
+(* P9 calls that do NOT run to completion (Model/BackendAbort.v): an exception raised between two attribute-level steps
+   of set_backend / backend_context entry / exit (asynchronous, e.g. KeyboardInterrupt; or raised by a step).  `abort
+   R c b o k` = the state after the first k acts of o.  Outside the operation alphabet of C17 (which speaks of whole
+   operations); stated to answer "is the machine atomic at those points?": NO (C17_abort_not_atomic_refuted), but what
+   is left behind is confined as follows. *)
+Theorem C17_abort_others_untouched : forall (R : rules) (c : cfg) (b : bst) (o : op) (k : nat) (u : tid),
+  u <> thr o -> b_priv (abort R c b o k) u = b_priv b u.
+Proof. exact abort_others. Qed.
+Print Assumptions C17_abort_others_untouched.
+
+Theorem C17_abort_other_view : forall (R : rules) (c : cfg) (b : bst) (o : op) (k : nat) (u : tid),
+  u <> thr o -> p_tls (b_priv b u) <> None -> cur (to_st (abort R c b o k)) u = cur (to_st b) u.
+Proof. exact abort_other_view. Qed.
+Print Assumptions C17_abort_other_view.
+
+Theorem C17_abort_shared_old_or_new : forall (R : rules) (c : cfg) (b : bst) (o : op) (k : nat),
+  b_shared (abort R c b o k) = b_shared b \/ b_shared (abort R c b o k) = b_shared (astep R c b (AOp o)).
+Proof. exact abort_shared_old_or_new. Qed.
+Print Assumptions C17_abort_shared_old_or_new.
+
+Theorem C17_abort_local_keeps_shared : forall (R : rules) (c : cfg) (b : bst) (o : op) (k : nat),
+  keep_flag R = true -> is_local (to_st b) o = true -> b_shared (abort R c b o k) = b_shared b.
+Proof. exact abort_local_keeps_shared. Qed.
+Print Assumptions C17_abort_local_keeps_shared.
+
+(* set_backend interrupted anywhere: nothing happened, or the THREAD-LOCAL flavour of the same selection, or the whole *)
+Theorem C17_abort_set_characterised : forall (R : rules) (c : cfg) (b : bst) (t : tid) (x : sel) (l : bool) (k : nat),
+  seqv (to_st (abort R c b (Set_ t x l) k)) (to_st b) \/
+  seqv (to_st (abort R c b (Set_ t x l) k)) (nxt R c (to_st b) (Set_ t x true)) \/
+  seqv (to_st (abort R c b (Set_ t x l) k)) (nxt R c (to_st b) (Set_ t x l)).
+Proof. exact abort_set. Qed.
+Print Assumptions C17_abort_set_characterised.
+
+(* the entry of a context interrupted anywhere: nothing, the selection (thread-local or as requested) WITHOUT a frame -
+   nothing will restore it -, or the whole entry *)
+Theorem C17_abort_enter_characterised : forall (R : rules) (c : cfg) (b : bst) (t : tid) (x : sel) (l : bool) (k : nat),
+  seqv (to_st (abort R c b (Enter t x l) k)) (to_st b) \/
+  seqv (to_st (abort R c b (Enter t x l) k)) (nxt R c (to_st b) (Set_ t x true)) \/
+  seqv (to_st (abort R c b (Enter t x l) k)) (nxt R c (to_st b) (Set_ t x l)) \/
+  seqv (to_st (abort R c b (Enter t x l) k)) (nxt R c (to_st b) (Enter t x l)).
+Proof. exact abort_enter. Qed.
+Print Assumptions C17_abort_enter_characterised.
+
+(* the exit of a context interrupted anywhere: nothing, the frame gone and nothing restored, the frame gone and the saved
+   backend restored in the thread only (a non-local context then leaves its backend as everybody's default), or the whole *)
+Theorem C17_abort_exit_characterised : forall (R : rules) (c : cfg) (b : bst) (t : tid) (e : bool) (k : nat),
+  match p_ctx (b_priv b t) with
+  | [] => seqv (to_st (abort R c b (Exit_ t e) k)) (to_st b)
+  | (old, lf) :: rest =>
+      let s1 := with_ctx (to_st b) t rest in
+      seqv (to_st (abort R c b (Exit_ t e) k)) (to_st b) \/
+      seqv (to_st (abort R c b (Exit_ t e) k)) s1 \/
+      seqv (to_st (abort R c b (Exit_ t e) k)) (nxt R c s1 (Set_ t (SInst old) true)) \/
+      seqv (to_st (abort R c b (Exit_ t e) k)) (nxt R c (to_st b) (Exit_ t e))
+  end.
+Proof. exact abort_exit. Qed.
+Print Assumptions C17_abort_exit_characterised.
+
+Theorem C17_abort_not_atomic_refuted :
+  let o := Enter 1 (SName 1) false in
+  let a := to_st (abort fixed_rules cfg0 b00 o 2) in
+  cur a 1 = Named 1 /\ ctx a 1 = [] /\ shared a = Named 0 /\
+  ~ seqv a (to_st b00) /\ ~ seqv a (nxt fixed_rules cfg0 (to_st b00) o).
+Proof. exact abort_not_atomic. Qed.
+Print Assumptions C17_abort_not_atomic_refuted.
+
+(* the ONE place where the code itself raises after a write: `cls._default_backend = backend.backend_name` comes after
+   `cls._THREAD_LOCAL_DATA.backend = backend`; an instance of the bare backend class (Backend(), TenalgBackend(): passes
+   isinstance, has no backend_name) makes it raise AttributeError.  exec_nl nl = a call in a world where the instances
+   in nl are nameless.  GENUINE DEFECT (rejection clause): the selection is rejected and yet the caller's backend changed. *)
+Theorem C17_rejected_nameless_refuted :
+  let o := Set_ 1 (SInst (Obj 20)) false in
+  let r := exec_nl false nl20 fixed_rules cfg0 b00 o in
+  snd r = true /\ cur (to_st b00) 1 = Named 0 /\ cur (to_st (fst r)) 1 = Obj 20 /\
+  shared (to_st (fst r)) = Named 0 /\ cur (to_st (fst r)) 2 = Named 0.
+Proof. exact nameless_rejected_changes_caller. Qed.
+Print Assumptions C17_rejected_nameless_refuted.
+
+(* what does hold for EVERY call that raises after it resolved its argument (any set of nameless instances, any rule
+   set, any state): the shared default and every OTHER thread's selection, stack and backend are unchanged *)
+Theorem C17_raising_selection_partial : forall (R : rules) (c : cfg) (nf : bool) (nl : inst -> bool) (b : bst) (o : op),
+  snd (exec_nl nf nl R c b o) = true ->
+  shared (to_st (fst (exec_nl nf nl R c b o))) = shared (to_st b) /\
+  forall u, u <> thr o ->
+    (tls (to_st (fst (exec_nl nf nl R c b o))) u = tls (to_st b) u) /\
+    (ctx (to_st (fst (exec_nl nf nl R c b o))) u = ctx (to_st b) u) /\
+    (cur (to_st (fst (exec_nl nf nl R c b o))) u = cur (to_st b) u).
+Proof. exact raising_partial. Qed.
+Print Assumptions C17_raising_selection_partial.
+
+(* the candidate repair build/fix_candidates/C17_nameless_instance.diff (nf = true: the name is read before the first
+   write): a set_backend / context entry that raises has changed nothing at all - the rejection clause in full *)
+Theorem C17_raising_selection_repaired : forall (R : rules) (c : cfg) (nf : bool) (nl : inst -> bool) (b : bst) (o : op),
+  nf = true -> (match o with Set_ _ _ _ | Enter _ _ _ => True | _ => False end) ->
+  snd (exec_nl nf nl R c b o) = true -> seqv (to_st (fst (exec_nl nf nl R c b o))) (to_st b).
+Proof. exact raising_repaired. Qed.
+Print Assumptions C17_raising_selection_repaired.
+
+Example C17_raising_selection_repaired_nonvacuous :
+  let r := exec_nl true nl20 fixed_rules cfg0 b00 (Set_ 1 (SInst (Obj 20)) false) in
+  let r' := exec_nl true nl20 fixed_rules cfg0 b00 (Enter 1 (SInst (Obj 20)) true) in
+  snd r = true /\ cur (to_st (fst r)) 1 = Named 0 /\ snd r' = true /\ cur (to_st (fst r')) 1 = Named 0 /\ ctx (to_st (fst r')) 1 = [].
+Proof. exact nameless_rejected_repaired. Qed.
+
+Theorem C17_raising_call_is_abort : forall (R : rules) (c : cfg) (nf : bool) (nl : inst -> bool) (b : bst) (o : op),
+  fst (exec_nl nf nl R c b o) = abort R c b o (fail_at nf nl c b (thr o) (acts_of R c b o)) /\
+  (snd (exec_nl nf nl R c b o) = false -> fst (exec_nl nf nl R c b o) = astep R c b (AOp o)).
+Proof. exact raising_call_is_abort. Qed.
+Print Assumptions C17_raising_call_is_abort.
+
+(* where no instance is nameless the machine with raising steps IS the machine of whole operations (all theorems above) *)
+Theorem C17_no_nameless_whole_operations : forall (nf : bool) (R : rules) (c : cfg) (b : bst) (o : op),
+  exec_nl nf (fun _ => false) R c b o = (astep R c b (AOp o), false).
+Proof. exact exec_nl_none. Qed.
+Print Assumptions C17_no_nameless_whole_operations.
+
+(* the thread-local flavour accepts the nameless instance silently; a later NON-local context of that thread then fails in
+   its exit and leaves the context's backend as the shared default of everybody else *)
+Example C17_nameless_local_accepted_then_exit_fails :
+  (let r := exec_nl false nl20 fixed_rules cfg0 b00 (Set_ 1 (SInst (Obj 20)) true) in
+   snd r = false /\ cur (to_st (fst r)) 1 = Obj 20) /\
+  (let h := [Set_ 1 (SInst (Obj 20)) true; Enter 1 (SName 1) false] in
+   let b := run_nl_hist false nl20 fixed_rules cfg0 b00 h in
+   let r := exec_nl false nl20 fixed_rules cfg0 b (Exit_ 1 false) in
+   snd r = true /\ cur (to_st (fst r)) 1 = Obj 20 /\ cur (to_st (fst r)) 2 = Named 1 /\ cur (to_st b00) 2 = Named 0).
+Proof. split; [exact nameless_local_accepted | exact nameless_exit_fails]. Qed.
+
+(* P10 cls._default_backend (read by initialize_backend only): after ANY history of whole operations it is the name of
+   the shared default cls._backend - set_backend writes both or neither (from the import-time state on: C17_initialize_ok).
+   Below operation level the two writes of two concurrent non-local calls can interleave (nothing reads the name then). *)
+Theorem C17_default_name_tracks_shared : forall (R : rules) (c : cfg) (h : list op) (s : st),
+  dname s = name_of c (shared s) -> dname (run R c s h) = name_of c (shared (run R c s h)).
+Proof. exact dname_tracks_shared. Qed.
+Print Assumptions C17_default_name_tracks_shared.
+
+Example C17_default_name_tracks_shared_nonvacuous :
+  dname (init (fun _ => None)) = name_of cfg0 (shared (init (fun _ => None))) /\
+  dname (run fixed_rules cfg0 (init (fun _ => None)) [Enter 1 (SInst (Obj 0)) false; Set_ 2 (SName 2) true; Exit_ 1 true; Set_ 2 (SName 1) false]) = 1.
+Proof. split; reflexivity. Qed.
+
